@@ -118,7 +118,7 @@ def book_evict(repo: Repo) -> List[Ob]:
     """every member removed from a product space gets index None and a defined state, for every
     class the member may have on that path"""
     obs: List[Ob] = []
-    P = ("C13", "C05")
+    P = ("C13", "C05", "C07")      # an evicted member with state None / a stale index / a stale level tag is not a valid stored state either
     fi = repo.func("ProductState.measure")
     cfg = CFG(fi.node)
     eff = {c: _effective_set_measured(repo, c) for c in ("Fock", "Polarization", "CustomState")}
